@@ -4,7 +4,6 @@ package main
 // and the instrumented readers (delivery schedules, injected I/O failures) used by C05-C09, C18, C19.
 
 import (
-	"sync/atomic"
 	"bytes"
 	"compress/zlib"
 	"errors"
@@ -17,6 +16,7 @@ import (
 	"math/rand"
 	"os"
 	"strings"
+	"sync/atomic"
 
 	_ "golang.org/x/image/webp"
 
